@@ -186,3 +186,27 @@ Proof.
     destruct (chk (fst tv)) as [ic'|] eqn:Hchk'; [|discriminate].
     exists its', ic'. repeat split; try assumption; apply (Hws tv Htv).
 Qed.
+
+Lemma wire_compat_refl : forall v, wire_compat (shape v) (shape v) = true.
+Proof. destruct v; cbn; try reflexivity. apply Nat.eqb_refl. Qed.
+
+(** primitive round trip, every wire type, unbounded values *)
+Theorem prim_roundtrip : forall v r, wf_pval v -> dec_wire (shape v) (enc_pval v ++ r) = Some (v, r).
+Proof.
+  intros v r H. rewrite dec_wire_enc by (auto using wire_compat_refl).
+  rewrite reinterp_same by auto. reflexivity.
+Qed.
+
+(** the code as pinned: MessIputSimcall packed COMM_ASYNC_SEND then two pointers; the checker's COMM_ASYNC_SEND
+    constructor reads unsigned, unsigned, int, string: it consumes 12 of the 16 bytes, takes the next two as a string
+    length and then waits for that many bytes, which never come *)
+Definition pinned_send_seq : list item := [IP (WInt 4 false); IP (WInt 4 false); IP (WInt 4 true); IP WStr].
+Definition pinned_chk (t : nat) : option (list item) := if Nat.eqb t 10 then Some pinned_send_seq else None.
+Definition pinned_mess_value : tval := (10%nat, [FP (VPtr 94390541050544); FP (VPtr 94390541050624)]).
+Lemma pinned_messqueue_refuted :
+  seq_compat [IP WPtr; IP WPtr] pinned_send_seq = false /\
+  wf_tval pinned_mess_value /\ dec_tval pinned_chk (enc_tval pinned_mess_value) = None.
+Proof.
+  split; [reflexivity|]. split; [|vm_compute; reflexivity].
+  split; [vm_compute; reflexivity|]. repeat constructor; vm_compute; congruence.
+Qed.
